@@ -278,6 +278,11 @@ func (c *MustacheParser) completeLexicalAnalysis() error {
 					tokenValue = variable
 				}
 
+				if operator1 == "!" {
+					tokenType = TokenComment
+					tokenValue = ""
+				}
+
 				if tokenType == TokenUnknown {
 					err := merr.NewMustacheError("", ErrCodeInternal, "Internal error", token.Line(), token.Column())
 					return err
